@@ -30,7 +30,7 @@ type CheckCtx struct {
 	// RaceSamples: how many scenarios are re-executed with the -race worker after the exploration.
 	RaceSamples int
 	// RaceBudget: no new scenario is started in the race leg after this long (0: no limit).
-	RaceBudget time.Duration
+	RaceBudget  time.Duration
 	raceSamples []raceSample
 	inRaceLeg   bool
 
